@@ -373,6 +373,13 @@ def render(events, style=0):
         if style == 2 and ev == 'name':
             # names that end in (or are, quoted) block keywords must still be names
             w = NAME_SPELLINGS[i % len(NAME_SPELLINGS)]
+        if style == 4 and ev == 'name' and i > 0:
+            # conditions that start with [NOT] EXISTS, and DDL statements as simple statements of a body
+            prev = events[i - 1]
+            if prev in ('if', 'while'):
+                w = ('exists (select 1)', 'not exists (select 1)')[i % 2]
+            elif prev in ('begin', 'then', 'else', 'loop', 'do'):
+                w = ('truncate table t', 'drop table t', 'alter table t add c int', 'x')[i % 4]
         if style == 1 and ev not in ('name',):
             w = w.upper()
         parts.append(w)
